@@ -35,7 +35,7 @@ import os
 import random
 import time
 import multiprocessing
-from concurrent.futures import ProcessPoolExecutor
+from concurrent.futures import ProcessPoolExecutor, ThreadPoolExecutor
 
 from verif import c13_helpers as H
 from verif import tracecheck
@@ -250,7 +250,11 @@ def _judge(run, templates, chosen, results):
                                               'status': actual['status'], 'body': actual['body']})
     run.note('informational_clauses_not_holding', notes)
     run.note('informational_examples', note_examples)
-    for (ti, _li, clause_stage) in tracecheck.first_rejects(rejects):
+    def simplicity(rj):   # report each kind of violation with the request that deviates least from a valid one
+        req = chosen[results[rj[0]][0]]['req']
+        return (sum(1 for f, ok in NEUTRAL.items() if req[f] not in ok), rj[0])
+
+    for (ti, _li, clause_stage) in sorted(tracecheck.first_rejects(rejects), key=simplicity):
         idx, v, actual = results[ti]
         req = chosen[idx]['req']
         clause, _, stage = clause_stage.partition('@')
@@ -326,13 +330,13 @@ def check(run, replay_path=None):
         run.note('request_types', {'provider': len(H.PROVIDER_TARGETS), 'consumer': len(H.CONSUMER_TARGETS),
                                    'get': len(H.GET_TARGETS), 'not_implemented_by_provider': unimpl})
 
-        # ---- 1. design: model-check the pipeline (liveness + invariants)
+        # ---- 1. design: model-check the pipeline (liveness + invariants); runs while the requests are executed
         mc_targets = run.pick(_representatives(templates), all_targets)
         inv = ''.join(f'INVARIANT {i}\n' for i in INVARIANTS) + 'PROPERTY Total\n'
         consts = dict(_constants(templates, mc_targets), Part='"all"', EmitOnly='FALSE')
-        cfg = _write_cfg('_gen_c13_mc.cfg', 'Spec', consts, inv)
-        res = run_tlc('Pipeline', cfg, workers=1, coverage=True, timeout=1500)
-        run.add_tlc(res, ACTIONS)
+        mc_cfg = _write_cfg('_gen_c13_mc.cfg', 'Spec', consts, inv)
+        mc_pool = ThreadPoolExecutor(max_workers=1)
+        mc_future = mc_pool.submit(run_tlc, 'Pipeline', mc_cfg, workers=1, coverage=True, timeout=1500)
         run.note('model_checked_request_types', len(mc_targets))
 
         # ---- 2. spec -> code: enumerate the abstract requests
@@ -378,6 +382,9 @@ def check(run, replay_path=None):
         if ex is not None:
             ex.close()
         _WORKER.clear()
+
+    run.add_tlc(mc_future.result(), ACTIONS)     # a counterexample of the model alone is a machinery failure
+    mc_pool.shutdown()
 
     # ---- 4. code -> spec: TLC judges the recorded final states
     results.sort(key=lambda r: (r[0], r[1]))
